@@ -21,13 +21,13 @@ LEVEL_TEXT = {
     'C14': 'Translation validation of naming-stress multi-package programs (same-named methods / functions / packages, nested closures in methods, generic functions, types and methods instantiated in several packages with local, aliased and composite type arguments, descriptor near-misses) plus a solver-checked merge-equivalence: every symbol that several modules define must be mergeable and its definitions equivalent (function bodies compared on arbitrary arguments, constant data structurally).',
     'C01': 'Translation validation of a corpus of core-language functions (branches, loops, labelled jumps, switch, multiple assignment, structs/arrays by value and through pointers, closures, methods, embedding, interfaces, type switches, generics, every range form, evaluation order, strings/slices): each function is executed under Go-specification semantics on its own unmodified go/ssa build and on the IR llgo\'s real pipeline emits (both before and after the default C-ABI transformation), with llgo\'s runtime entry points executed from their Go source; the solver proves equal results / panics / external-call traces for all argument values within the loop bound.',
     'C03': 'Translation validation of 147 one-statement functions bracketed by trace calls (index / slice / slice-to-array / make forms x every index type, nil dereferences, array lengths at index-type maxima) plus bounded symbolic verification of the runtime checks NewSlice3, StringSlice, MakeSlice and Assert* for all 64-bit argument values.',
-    'C04': 'Translation validation of defer/panic/recover shapes (7 hand-written + 33 generated from a defer-shape grammar; 300 in the thorough tier): llgo\'s setjmp/longjmp + indirectbr defer machinery and its real runtime.Panic/Rethrow/Recover are executed symbolically against Go-specification defer semantics; deferred-call order and arguments (trace), named results and final panic state must agree for all inputs.',
-    'C10': 'Bounded model checking of the real z_chan.go under a symbolic scheduler: every interleaving at lock / condition-wait granularity (preemption-bounded, spurious wake-ups in the thorough tier) of 2-3 threads performing send / receive / close / select on channels of capacity 0-1, with symbolic element values; verdicts: delivered exactly once, ok flags, select commits a ready case, no deadlock while operations could complete.',
-    'C11': 'Bounded model checking under the same symbolic scheduler of llgo\'s semaphore (semaAcquire/semaRelease), notify list (the primitives under sync.Mutex/Cond/WaitGroup) and sync/atomic.Value: no lost wake-up, mutual exclusion, Wait returns only for a covered ticket, Swap/CompareAndSwap linearizable.',
+    'C04': 'Translation validation of defer/panic/recover shapes (12 hand-written incl. re-panic while a panic is pending + 33 generated from a defer-shape grammar; 300 in the thorough tier): llgo\'s setjmp/longjmp + indirectbr defer machinery and its real runtime.Panic/Rethrow/Recover are executed symbolically against Go-specification defer semantics; deferred-call order and arguments (trace), named results and final panic state must agree for all inputs.',
+    'C10': 'Bounded model checking of the real z_chan.go under a symbolic scheduler: every interleaving at lock / condition-wait granularity (preemption-bounded, spurious wake-ups in the thorough tier) of 2-3 threads performing send / receive / close / select on channels of capacity 0-1, with symbolic element values, plus the buffered ring at every head position for capacities 1-3 with sends through ChanSend and ChanTrySend (the select path); verdicts: delivered exactly once, ok flags, select commits a ready case, no deadlock while operations could complete.',
+    'C11': 'Bounded model checking under the same symbolic scheduler of llgo\'s semaphore (semaAcquire/semaRelease), notify list (the primitives under sync.Mutex/Cond/WaitGroup) and sync/atomic.Value: no lost wake-up, mutual exclusion, Wait returns only for a covered ticket, Swap/CompareAndSwap linearizable, first write through Store / Swap / CompareAndSwap never exposes a half-published value. Scheduling points sit before and after every atomic operation, so check-then-act races on plain memory next to atomics are explored.',
     'C16': 'Bounded symbolic differential of llgo\'s //go:embed directive parsing against the reference toolchain\'s own go/build.parseGoEmbed (copied verbatim from GOROOT at check time): all argument texts <= 3 bytes (4 in thorough) over a 12-byte stress alphabet, directive recognition, and the embed.FS sort key against embed.split.',
     'C20': 'Bounded symbolic verification of extractTarGz / extractZip with the archive readers replaced by nondeterministic stubs: for every entry name <= 5 bytes (7 in thorough), type flag and link name, every file-system call stays inside the destination, escaping entries are rejected, benign entries are accepted.',
     'C02': 'Translation validation per one-operator function: the function is executed under Go-specification semantics (go/ssa) and on the LLVM IR that llgo\'s real pipeline (build.Do) emits for it; the solver proves equal result / equal panic status and absence of LLVM poison or UB for ALL operand values at full width (633 functions: every operator x 11 integer types, all 121 shift operand/count pairs, all integer conversion pairs, float32/64 arithmetic, comparisons and int<->float conversions, complex + - * == !=).',
-    'C05': 'Bounded symbolic verification of the runtime slice/string kernels (go/ssa of runtime/internal/runtime executed symbolically): one step from an arbitrary valid pre-state per kernel, all element values and all header values within the stated element-count bounds; UTF-8 decode/encode differential against unicode/utf8 for all byte strings <= 5 bytes and all 2^32 runes. The solver verdict covers every input inside the bounds; nothing is sampled.',
+    'C05': 'Bounded symbolic verification of the runtime slice/string kernels (go/ssa of runtime/internal/runtime executed symbolically): one step from an arbitrary valid pre-state per kernel, all element values and all header values within the stated element-count bounds; UTF-8 decode/encode differential against unicode/utf8 for all byte strings <= 5 bytes and all 2^32 runes; string kernels (StringEqual / StringLess incl. operands that are windows of one buffer, StringCat, StringToBytes / StringFromBytes round trip and freshness, StringIterNext) for all strings <= 3 bytes. The solver verdict covers every input inside the bounds; nothing is sampled.',
     'C17': 'Bounded symbolic verification of the round-trip laws of shellparse.Parse and safesplit.SplitPkgConfigFlags over all argument lists within the stated rune/byte bounds (runes symbolic over Latin-1 plus wide runes, bytes fully symbolic).',
     'C18': 'Bounded symbolic verification of targets.Loader: the merge law for every field of Config (harness generated from the struct definition at check time) and inheritance resolution over all graphs on 2-3 nodes (chains, diamonds, cycles, self-loops, missing parents) against an independent reference, as a history of loads through one loader.',
 }
@@ -39,7 +39,7 @@ NOTE = {
     'C14': 'Three program shapes; linkname/export directives and C-callback wrappers are outside; equivalence of descriptor data is structural (private string constants compared by content).',
     'C01': 'The quantifier all programs is met only through the hand-written corpus (58 functions, each also after the default cabi transform) and a grammar-generated sample of total integer/array/struct/closure functions (48 quick, 200 thorough, VERIF_SEED selects the sample; per-function budget 30 s / 90 s, overruns are reported inconclusive); loop bound 8; LLVM 14 binding as IR producer; optimisation level O2, linking, process exit codes and gc/nogc configuration are outside. Known finding: ssa_order_fix.',
     'C03': 'Signal delivery (SIGSEGV re-arming) is not modelled; nil-map writes and failed type assertions (llgo raises the latter with a string value, not a runtime.Error - the property only asks for a panic) are covered by 7 forms; channel panics (send on / close of a closed or nil channel, plain and in select) are covered for one goroutine through 9 forms against an oracle channel model; nil faults are modelled as accesses inside the unmapped 1 MiB nil region.',
-    'C04': 'Goexit, goroutine-exit defers and O2 are outside; the corpus is fixed (not seeded) because llgo\'s defer lowering has known defects (two recorded known findings).',
+    'C04': 'Goexit, goroutine-exit defers and O2 are outside; the corpus is fixed (not seeded) because llgo\'s defer lowering has known defects (three recorded known findings).',
     'C10': 'Preemption bound 2 (3 thorough), no spurious wake-ups in quick; >= 4 threads, timers and the compiler lowering of select/chan ops are outside. Known finding: close racing an unbuffered hand-off.',
     'C11': 'The standard library sync types on top of these primitives, goroutine start (go statement lowering) and atomics lowering are outside this check; preemption bound 2 (3 thorough).',
     'C16': 'File-system resolution of patterns (ResolvePatterns, CheckPath) is outside (needs a real directory tree and go list as oracle).',
